@@ -37,7 +37,16 @@ CLAIMS['C07'] = dict(
     note=_TB + 'bitvec is behind assumed contracts (LSB-first, little-endian).',
     design_ref='DESIGN.md 5 C07')
 
+CLAIMS['C12'] = dict(
+    text='Unbounded proof over all chunkings: the inner reader is specified only as "delivers its pending bytes front to back in chunks of any size", and '
+         'StripHeaderReader::strip_head_read / read are verified per call against a ghost stream model (what the wrapper will still hand on = header rule applied '
+         'to what the inner reader still holds); strip_junk_header is verified against the same header automaton, so both paths hand the JSON parser the same bytes '
+         'up to one leading newline and reject exactly the bare-CR header.',
+    note=_TB + 'The std::io::Read contract (prelude/io_read.rs) is assumed of every inner reader; serde_json skipping leading whitespace and agreeing between '
+         'from_reader and from_slice is assumed; #[derive(PartialEq)] on HeaderState is taken as variant equality.',
+    design_ref='DESIGN.md 5 C12')
+
 NOT_APPLICABLE = {p: 'under construction in this session (contract-based check being built; see DESIGN.md decision table)' for p in
-                  ['C01', 'C02', 'C03', 'C05', 'C08', 'C09', 'C10', 'C12', 'C13', 'C14', 'C15', 'C17', 'C18', 'C19', 'C20']}
+                  ['C01', 'C02', 'C03', 'C05', 'C08', 'C09', 'C10', 'C13', 'C14', 'C15', 'C17', 'C18', 'C19', 'C20']}
 NOT_APPLICABLE['C16'] = ('concurrency (interleavings of threads sharing a SourceView over std Mutex / atomics): Kani has no thread support and Verus needs '
                          'its own permission-typed primitives, so no contract within reach of the installed verifiers expresses or decides it')
